@@ -92,6 +92,8 @@ def compare_pipeline(p, g):
         out.append(("leak", own, "allocation balance %s after the pipeline is quiescent" % g["leak"]))
     if g["flive"] != "0":
         out.append(("functor", own, "%s functor captures still alive after the pipeline is quiescent" % g["flive"]))
+    if g.get("erefs", "0,0") != "0,0":
+        out.append(("erefs", own, "executor references taken and not returned after the pipeline is quiescent (e1, e2): %s" % g["erefs"]))
     return out
 
 
